@@ -11,6 +11,7 @@ import (
 
 	"tinkverif/core"
 	"tinkverif/effects"
+	"tinkverif/guard"
 )
 
 func init() { Registry["C18"] = c18 }
@@ -167,6 +168,9 @@ func c18(c *Ctx) {
 			default:
 				continue
 			}
+			if runsOnlyUnderOnce(w.OriginFn) {
+				continue // the writing closure is only ever run by (*sync.Once).Do: executed once, with happens-before for every caller
+			}
 			ofn, opos := originKey(p, w, f)
 			okey := fmt.Sprintf("C18.nowrite/%s/%s", ofn, shortDesc(w.OriginDesc, w.Desc))
 			g := viol[okey]
@@ -300,6 +304,35 @@ func globalAccesses(p *core.Program, g *ssa.Global) []gaccess {
 		}
 	}
 	return out
+}
+
+// runsOnlyUnderOnce: fn is an anonymous function whose only use is as the
+// argument of (*sync.Once).Do.
+func runsOnlyUnderOnce(fn *ssa.Function) bool {
+	if fn == nil || fn.Parent() == nil {
+		return false
+	}
+	uses, onceUses := 0, 0
+	allInstrs(fn.Parent(), func(ins ssa.Instruction) {
+		for _, op := range ins.Operands(nil) {
+			v := *op
+			if mc, ok := v.(*ssa.MakeClosure); ok {
+				if mc.Fn != ssa.Value(fn) {
+					continue
+				}
+			} else if v != ssa.Value(fn) {
+				continue
+			}
+			if _, isMC := ins.(*ssa.MakeClosure); isMC {
+				continue // the closure creation itself
+			}
+			uses++
+			if call, ok := ins.(ssa.CallInstruction); ok && guard.CalleeName(call.Common()) == "(*sync.Once).Do" {
+				onceUses++
+			}
+		}
+	})
+	return uses > 0 && uses == onceUses
 }
 
 func isInitFunc(f *ssa.Function) bool {
